@@ -88,9 +88,9 @@ theorem WF.add_ne_fail {cfg : Cfg H} {s : Store H} (hw : WF cfg s) (x : Src H) :
 
 /-! ### `concurrent` -/
 
-theorem concurrent_lc_none {s : Store H} {r : Row H} (hl : r.st = .lc) (hn : lcAtHeight s r.height = none) :
-    concurrent s r = false := by
-  simp [concurrent, hl, hn]
+theorem concurrent_lc_none {s : Store H} {r : Row H} (hl : r.st = .lc) (hwk : r.work ≠ 0)
+    (hn : lcAtHeight s r.height = none) : concurrent s r = false := by
+  simp [concurrent, hl, hwk, hn]
 
 theorem concurrent_stale {s : Store H} {r : Row H} (h : r.st = .stale) : concurrent s r = true := by
   simp [concurrent, h]
@@ -108,6 +108,15 @@ theorem relab_no_promote {h1 h2 : List H} {a : Row H} (k : a.hash ∉ h2) : rela
 section sw
 variable {cfg : Cfg H} {s : Store H} {x : Src H} {t p : Row H}
 
+/-- a header that triggers a reorganisation adds work: otherwise its cumulative work is its parent's, which the tip
+    dominates -/
+theorem Sw.work_ne_zero (c : Sw cfg s x t p) : (setSt (mkRow cfg s x) .lc).work ≠ 0 := by
+  show work x.bits ≠ 0
+  have h1 := (c.hl.best p c.hp c.hpc).1
+  have h2 := c.hcum
+  have h3 := c.hmc
+  omega
+
 theorem Sw.final (c : Sw cfg s x t p) :
     add cfg s x = (s.map (rel2 cfg s x) ++ [setSt (mkRow cfg s x) .lc], .stored (setSt (mkRow cfg s x) .lc)) :=
   add_switch c.hd c.hf c.hc (c.hl.getTip c.ht) c.hcum
@@ -119,7 +128,7 @@ theorem Sw.redeliver2 (c : Sw cfg s x t p) : add cfg (s.map (rel2 cfg s x)) x = 
   have hd2 := fresh_map (f := rel2 cfg s x) (relab_hash _ _) c.hd
   have hc2 : concurrent (s.map (rel2 cfg s x)) (mkRow cfg (s.map (rel2 cfg s x)) x) = false := by
     rw [hmk]
-    apply concurrent_lc_none rfl
+    apply concurrent_lc_none rfl c.work_ne_zero
     apply lcAtHeight_eq_none
     intro a' ha' hal e
     have h1 := c.rel2_top.top a' ha' hal
@@ -150,7 +159,7 @@ theorem Sw.redeliver1 (c : Sw cfg s x t p) : add cfg (s.map (rel1 cfg s x)) x = 
     rw [k] at hmk
     have hc1 : concurrent (s.map (rel1 cfg s x)) (mkRow cfg (s.map (rel1 cfg s x)) x) = false := by
       rw [hmk]
-      apply concurrent_lc_none rfl
+      apply concurrent_lc_none rfl c.work_ne_zero
       apply lcAtHeight_eq_none
       intro a' ha' hal e
       obtain ⟨a, ha, rfl⟩ := List.mem_map.1 ha'
